@@ -1,8 +1,9 @@
 (** C01 - correspondence (model vs implementation, exact) and property oracle (specification
     functions block / compl / mean evaluated on the implementation's outputs).
-    Data are identity tags (small integers, exactly representable in the f64 the harness stores). *)
-From Coq Require Import List Arith NArith ZArith Bool Floats.
-From LinfaVerif Require Export Common.Num Common.Run C01.Model.
+    Data are identity tags (small integers, exactly representable in the f64 / f32 the harness stores).
+    Scores are floats: binary64 (primitive floats) or binary32 (Common/B32.v), through a [fkit]. *)
+From Coq Require Import List Arith NArith ZArith QArith Bool Floats SpecFloat.
+From LinfaVerif Require Export Common.Num Common.Run Common.B32 Common.QF C01.Model.
 Import ListNotations.
 
 (** an array as observed: shape and row-major data (one-dimensional targets: cols = 1) *)
@@ -13,14 +14,47 @@ Record foldpair := { fp_tr : arr; fp_tt : arr; fp_vr : arr; fp_vt : arr }.
 Record ifitem := { ii_ar : arr; ii_at : arr; ii_vr : arr; ii_vt : arr }.
 Record ifres := { ir_items : list ifitem; ir_rec : list N; ir_tgt : list N; ir_outside_ok : bool }.
 
-Inductive cvout := CvOk (rows cols : N) (data : list float) | CvErr (id : N) | CvPanic.
-Record cvcase := {
-  cv_cm : list float;                    (* one constant per candidate model *)
-  cv_q : float;
+Inductive cvout (F : Type) := CvOk (rows cols : N) (data : list F) | CvErr (id : N) | CvPanic.
+Arguments CvOk {F}. Arguments CvErr {F}. Arguments CvPanic {F}.
+Record cvcase (F : Type) := {
+  cv_cm : list F;                        (* one constant per candidate model *)
+  cv_q : F;
   cv_fail_fit : list (N * N * N);        (* (model, training state, error id): this fit fails *)
-  cv_fail_eval : list (float * N);       (* (first predicted value, error id): this evaluation fails *)
-  cv_out : cvout;
+  cv_fail_eval : list (F * N);           (* (first predicted value, error id): this evaluation fails *)
+  cv_out : cvout F;
   cv_rec : list N; cv_tgt : list N; cv_outside_ok : bool   (* the dataset after the call *)
+}.
+Arguments cv_cm {F}. Arguments cv_q {F}. Arguments cv_fail_fit {F}. Arguments cv_fail_eval {F}.
+Arguments cv_out {F}. Arguments cv_rec {F}. Arguments cv_tgt {F}. Arguments cv_outside_ok {F}.
+
+(** the float type of the scores with what the mock closures and the oracle need: operations, bit
+    equality, a NaN, the exact rational value of a finite float, finiteness, the relative slack
+    of the mean oracle *)
+Record fkit (F : Type) := {
+  fk_ops : NumOps F; fk_biteq : F -> F -> bool; fk_nan : F;
+  fk_Q : F -> Q; fk_fin : F -> bool; fk_tol : Q
+}.
+Arguments fk_ops {F}. Arguments fk_biteq {F}. Arguments fk_nan {F}.
+Arguments fk_Q {F}. Arguments fk_fin {F}. Arguments fk_tol {F}.
+Definition kit64 : fkit float :=
+  {| fk_ops := B64_ops; fk_biteq := f64_biteq; fk_nan := nan; fk_Q := f64_Q; fk_fin := f64_finite;
+     fk_tol := 1 # 1099511627776 |}.                                    (* 2^-40 *)
+Definition kit32 : fkit spec_float :=
+  {| fk_ops := B32_ops; fk_biteq := b32_biteq; fk_nan := S754_nan; fk_Q := SF2Qd; fk_fin := sf_finite;
+     fk_tol := 1 # 16384 |}.                                            (* 2^-14 *)
+Definition B32L (l : list Z) : list spec_float := map b32_of_bits l.
+
+(** a storage layout as the harness reads it off the ndarray view it built: offset of element (0, 0)
+    in the memory-order buffer of the parent allocation and the two strides, in elements (for
+    one-dimensional targets lv_s1 = 0), plus that whole buffer *)
+Record lview := { lv_off : N; lv_s0 : Z; lv_s1 : Z }.
+Record laycase := {
+  lc_rv : lview; lc_rpar : list N;
+  lc_tv : lview; lc_tpar : list N;
+  (* iter_fold: None = panic, else the items / logical contents afterwards and both parent buffers afterwards *)
+  lc_ifold : list (option (ifres * (list N * list N)));
+  (* cross_validate (f64): outcome and, unless it panicked, both parent buffers afterwards *)
+  lc_cv : list (cvcase float * option (list N * list N))
 }.
 
 Record case := {
@@ -28,11 +62,13 @@ Record case := {
   c_n : N; c_w : N;
   c_tdim : N;                            (* 0: one-dimensional targets; t > 0: two-dimensional with t columns *)
   c_k : N;
-  c_recs : list N; c_tgts : list N;      (* row-major buffers of the dataset before the calls *)
+  c_recs : list N; c_tgts : list N;      (* row-major (logical) contents of the dataset before the calls *)
   c_fold : list (option (list foldpair));          (* one entry per storage layout tried; None = panic *)
   c_ifold : list (option ifres);
   c_chunks : list (N * option (list (arr * arr))); (* sample_chunks(size) *)
-  c_cv : list cvcase
+  c_cv : list (cvcase float);
+  c_cv32 : list (cvcase spec_float);               (* f32 dataset, f32 scores *)
+  c_lay : list laycase
 }.
 
 (** * helpers *)
@@ -183,37 +219,42 @@ Definition oracle_chunks (sz : N) (r : option (list (arr * arr))) : N :=
 (** ** cross_validate with mock models (the same functions as in harness/src/bin/c01.rs) *)
 Definition sumN (l : list N) : N := fold_left N.add l 0%N.
 Definition mock_state (train : list N * list N) : N := (sumN (fst train) + 3 * sumN (snd train))%N.
-Definition fN (x : N) : float := f64_of_N_small x.
 
-Definition mock_fit (cv : cvcase) (m : nat) (train : list N * list N) : N + (float * N) :=
+Section Kit.
+Context {F : Type} (kt : fkit F).
+Let o := fk_ops kt.
+Definition fN (x : N) : F := of_N o x.
+
+Definition mock_fit (cv : cvcase F) (m : nat) (train : list N * list N) : N + (F * N) :=
   let s := mock_state train in
   match find (fun e => N.eqb (fst (fst e)) (N.of_nat m) && N.eqb (snd (fst e)) s) (cv_fail_fit cv) with
   | Some e => inl (snd e)
-  | None => inr (nth m (cv_cm cv) nan, s)
+  | None => inr (nth m (cv_cm cv) (fk_nan kt), s)
   end.
-Definition mock_predict (mdl : float * N) (vr : list N) : list (list float) :=
-  map (fun row => let base := PrimFloat.add (PrimFloat.mul (fN (snd mdl)) (fst mdl)) (fN (hd 0%N row)) in
-                  map (fun j => PrimFloat.add base (fN (N.of_nat j))) (seq 0 tw))
+Definition mock_predict (mdl : F * N) (vr : list N) : list (list F) :=
+  map (fun row => let base := add o (mul o (fN (snd mdl)) (fst mdl)) (fN (hd 0%N row)) in
+                  map (fun j => add o base (fN (N.of_nat (2 * j)))) (seq 0 tw))
       (rows_of w vr).
-Definition mock_eval (cv : cvcase) (pred : list (list float)) (vt : list N) : N + list float :=
-  let p00 := nth 0 (nth 0 pred []) nan in
-  match find (fun e => f64_biteq (fst e) p00) (cv_fail_eval cv) with
+Definition mock_eval (cv : cvcase F) (pred : list (list F)) (vt : list N) : N + list F :=
+  let p00 := nth 0 (nth 0 pred []) (fk_nan kt) in
+  match find (fun e => fk_biteq kt (fst e) p00) (cv_fail_eval cv) with
   | Some e => inl (snd e)
   | None =>
       inr (map (fun j => fold_left (fun acc pr =>
-                   PrimFloat.add acc (PrimFloat.mul (PrimFloat.sub (nth j (fst pr) nan) (fN (nth j (snd pr) 0%N))) (cv_q cv)))
-                   (combine pred (rows_of tw vt)) 0%float)
+                   add o acc (mul o (sub o (nth j (fst pr) (fk_nan kt)) (fN (nth j (snd pr) 0%N))) (cv_q cv)))
+                   (combine pred (rows_of tw vt)) (zero o))
                (seq 0 tw))
   end.
 
-Definition cv_expected (cv : cvcase) :=
-  cross_validate_model B64_ops (mock_fit cv) mock_predict (mock_eval cv)
+Definition cv_expected (cv : cvcase F) :=
+  cross_validate_model o (mock_fit cv) mock_predict (mock_eval cv)
                        k (length (cv_cm cv)) n w tw (c_recs c) (c_tgts c).
 
-Definition corr_cv (cv : cvcase) : N :=
-  match cv_expected cv, cv_out cv with
+(** [expected]: the model's outcome and the logical contents of the dataset afterwards *)
+Definition corr_cv_gen (expected : option ((N + list (list F)) * (list N * list N))) (cv : cvcase F) : N :=
+  match expected, cv_out cv with
   | Some (inr sc, (rb, tb)), CvOk r cl d =>
-      (flag (N.eqb r (N.of_nat (length sc)) && N.eqb cl (N.of_nat tw) && list_eqb f64_biteq d (concat sc)) 16
+      (flag (N.eqb r (N.of_nat (length sc)) && N.eqb cl (N.of_nat tw) && list_eqb (fk_biteq kt) d (concat sc)) 16
        + flag (lN_eqb (cv_rec cv) rb && lN_eqb (cv_tgt cv) tb) 64)%N
   | Some (inl e, (rb, tb)), CvErr e' =>
       (flag (N.eqb e e') 32 + flag (lN_eqb (cv_rec cv) rb && lN_eqb (cv_tgt cv) tb) 64)%N
@@ -221,47 +262,112 @@ Definition corr_cv (cv : cvcase) : N :=
   | Some _, CvPanic => if in_domain then 0%N else 32%N
   | _, _ => 32%N
   end.
+Definition corr_cv (cv : cvcase F) : N := corr_cv_gen (cv_expected cv) cv.
 
 (** oracle: recompute every fold from the specification (compl / block), order-insensitively *)
 Definition spec_state (i : nat) : N := mock_state (concat (compl fs i rrows), concat (compl fs i trows)).
-Definition spec_score (cv : cvcase) (i m : nat) : N + list float :=
-  mock_eval cv (mock_predict (nth m (cv_cm cv) nan, spec_state i) (concat (block fs i rrows)))
+Definition spec_score (cv : cvcase F) (i m : nat) : N + list F :=
+  mock_eval cv (mock_predict (nth m (cv_cm cv) (fk_nan kt), spec_state i) (concat (block fs i rrows)))
             (concat (block fs i trows)).
-Definition spec_failures (cv : cvcase) : list N :=
+Definition spec_failures (cv : cvcase F) : list N :=
   flat_map (fun i => flat_map (fun m =>
       match mock_fit cv m (concat (compl fs i rrows), concat (compl fs i trows)) with
       | inl e => [e]
       | inr _ => match spec_score cv i m with inl e => [e] | inr _ => [] end
       end) (seq 0 (length (cv_cm cv)))) (seq 0 k).
-Definition score_or_nan (cv : cvcase) (i m j : nat) : float :=
-  match spec_score cv i m with inl _ => nan | inr s => nth j s nan end.
-Definition tol : float := 0x1p-40%float.
-Definition mean_close (cv : cvcase) (m j : nat) (x : float) : bool :=
-  let es := map (fun i => score_or_nan cv i m j) (seq 0 k) in
-  let kk := fN (N.of_nat k) in
-  let mean := PrimFloat.div (fold_left PrimFloat.add es 0%float) kk in
-  let mag := PrimFloat.div (fold_left (fun a e => PrimFloat.add a (PrimFloat.abs e)) es 0%float) kk in
-  PrimFloat.leb (PrimFloat.abs (PrimFloat.sub x mean)) (PrimFloat.add (PrimFloat.mul mag tol) 0x1p-1000%float).
+Definition score_or_nan (cv : cvcase F) (i m j : nat) : F :=
+  match spec_score cv i m with inl _ => fk_nan kt | inr s => nth j s (fk_nan kt) end.
+(** the evaluation values of parameter set m, target column j: one per fold *)
+Definition fold_scores (cv : cvcase F) (m j : nat) : list F := map (fun i => score_or_nan cv i m j) (seq 0 k).
 
-Definition oracle_cv (cv : cvcase) : N :=
+(** exact rational arithmetic on the values of the floats: all finite, and
+    | x * #es - sum es | <= tol * sum |es|,  i.e.  | x - mean es | <= tol * mean |es| *)
+Definition mean_close_q (es : list F) (x : F) : bool :=
+  fk_fin kt x && forallb (fk_fin kt) es
+  && Qleb (Qabs' (fk_Q kt x * inject_Z (Z.of_nat (length es)) - Qsum (map (fk_Q kt) es)))
+          (fk_tol kt * Qsum (map (fun e => Qabs' (fk_Q kt e)) es)).
+
+(** [panic_code]: what a panic is worth (0 where it is the documented behaviour);
+    [restored]: whether everything the dataset points into is what it was before the call *)
+Definition oracle_cv_gen (panic_code : N) (restored : bool) (cv : cvcase F) : N :=
   if negb in_domain then 0%N else
   let nm := length (cv_cm cv) in
-  let restored := lN_eqb (cv_rec cv) (c_recs c) && lN_eqb (cv_tgt cv) (c_tgts c) && cv_outside_ok cv in
   match cv_out cv with
-  | CvPanic => 16384%N
+  | CvPanic => panic_code
   | CvErr e => (flag (existsb (N.eqb e) (spec_failures cv)) 4096 + flag restored 8192)%N
   | CvOk r cl d =>
       (flag (match spec_failures cv with [] => true | _ => false end) 4096
        + flag (N.eqb r (N.of_nat nm) && N.eqb cl (N.of_nat tw) && Nat.eqb (length d) (nm * tw)
-               && forall_i (fun idx x => mean_close cv (idx / tw) (idx mod tw) x) 0 d) 2048
+               && forall_i (fun idx x => mean_close_q (fold_scores cv (idx / tw) (idx mod tw)) x) 0 d) 2048
        + flag restored 8192)%N
   end.
+Definition cv_restored (cv : cvcase F) : bool :=
+  lN_eqb (cv_rec cv) (c_recs c) && lN_eqb (cv_tgt cv) (c_tgts c) && cv_outside_ok cv.
+Definition oracle_cv (cv : cvcase F) : N := oracle_cv_gen 16384%N (cv_restored cv) cv.
+End Kit.
+
+(** ** storage layouts (iter_fold / cross_validate on views that are not standard row-major) *)
+Definition lay_rv (lc : laycase) : view2 :=
+  mkView (N.to_nat (lv_off (lc_rv lc))) n w (lv_s0 (lc_rv lc)) (lv_s1 (lc_rv lc)).
+Definition lay_tv (lc : laycase) : view2 :=
+  mkView (N.to_nat (lv_off (lc_tv lc))) n tw (lv_s0 (lc_tv lc)) (lv_s1 (lc_tv lc)).
+Definition lay_std (lc : laycase) : bool := is_standard (lay_rv lc) && is_standard (lay_tv lc).
+(** the description the harness reports really describes this case's dataset *)
+Definition lay_wf (lc : laycase) : bool :=
+  vw_inb (lay_rv lc) (length (lc_rpar lc)) && vw_inb (lay_tv lc) (length (lc_tpar lc))
+  && lN_eqb (vw_logical 0%N (lay_rv lc) (lc_rpar lc)) (c_recs c)
+  && lN_eqb (vw_logical 0%N (lay_tv lc) (lc_tpar lc)) (c_tgts c).
+
+Definition corr_lay_ifold (lc : laycase) (r : option (ifres * (list N * list N))) : N :=
+  match iter_fold_strided 0%N 0%N (fun a : list N * list N => a) k (lay_rv lc) (lay_tv lc) (lc_rpar lc) (lc_tpar lc), r with
+  | Some (items, (rb, tb)), Some (ir, (pr, pt)) =>
+      (flag (list_rel ifitem_is (ir_items ir) items) 2
+       + flag (lN_eqb pr rb && lN_eqb pt tb && lN_eqb (ir_rec ir) (vw_logical 0%N (lay_rv lc) rb)
+               && lN_eqb (ir_tgt ir) (vw_logical 0%N (lay_tv lc) tb)) 4)%N
+  | None, None => 0%N
+  | Some _, None => if in_domain then 0%N else 128%N   (* a panic on a valid input is judged by the oracle *)
+  | None, Some _ => 128%N
+  end.
+Definition lay_ifres (lc : laycase) (r : ifres * (list N * list N)) : ifres :=
+  {| ir_items := ir_items (fst r); ir_rec := ir_rec (fst r); ir_tgt := ir_tgt (fst r);
+     ir_outside_ok := lN_eqb (fst (snd r)) (lc_rpar lc) && lN_eqb (snd (snd r)) (lc_tpar lc) |}.
+(** a panic is fine exactly where it is documented (some array not in standard layout); whatever is
+    returned instead of a panic has to be a correct k-fold iteration of the LOGICAL dataset that
+    leaves both parent buffers as they were *)
+Definition oracle_lay_ifold (lc : laycase) (r : option (ifres * (list N * list N))) : N :=
+  match r with
+  | None => if in_domain && lay_std lc then 16%N else 0%N
+  | Some x => oracle_ifold (Some (lay_ifres lc x))
+  end.
+
+Definition corr_lay_cv (lc : laycase) (p : cvcase float * option (list N * list N)) : N :=
+  let cv := fst p in
+  let e := cross_validate_strided B64_ops 0%N 0%N (mock_fit kit64 cv) (mock_predict kit64) (mock_eval kit64 cv)
+             k (length (cv_cm cv)) (lay_rv lc) (lay_tv lc) (lc_rpar lc) (lc_tpar lc) in
+  (corr_cv_gen kit64 (option_map (fun x => (fst x, (vw_logical 0%N (lay_rv lc) (fst (snd x)),
+                                                    vw_logical 0%N (lay_tv lc) (snd (snd x))))) e) cv
+   + match e, snd p with
+     | Some (_, (rb, tb)), Some (pr, pt) => flag (lN_eqb pr rb && lN_eqb pt tb) 64
+     | _, _ => 0
+     end)%N.
+Definition oracle_lay_cv (lc : laycase) (p : cvcase float * option (list N * list N)) : N :=
+  let cv := fst p in
+  oracle_cv_gen kit64 (if lay_std lc then 16384%N else 0%N)
+    (lN_eqb (cv_rec cv) (c_recs c) && lN_eqb (cv_tgt cv) (c_tgts c)
+     && match snd p with Some (pr, pt) => lN_eqb pr (lc_rpar lc) && lN_eqb pt (lc_tpar lc) | None => false end) cv.
+
+Definition corr_lay (lc : laycase) : N :=
+  (flag (lay_wf lc) 256 + lor_list (map (corr_lay_ifold lc) (lc_ifold lc) ++ map (corr_lay_cv lc) (lc_cv lc)))%N.
+Definition oracle_lay (lc : laycase) : N :=
+  lor_list (map (oracle_lay_ifold lc) (lc_ifold lc) ++ map (oracle_lay_cv lc) (lc_cv lc)).
 
 Definition run_case_body : N * N :=
   (lor_list (map corr_fold (c_fold c) ++ map corr_ifold (c_ifold c)
-             ++ map (fun p => corr_chunks (fst p) (snd p)) (c_chunks c) ++ map corr_cv (c_cv c)),
+             ++ map (fun p => corr_chunks (fst p) (snd p)) (c_chunks c)
+             ++ map (corr_cv kit64) (c_cv c) ++ map (corr_cv kit32) (c_cv32 c) ++ map corr_lay (c_lay c)),
    lor_list (map oracle_fold (c_fold c) ++ map oracle_ifold (c_ifold c)
-             ++ map (fun p => oracle_chunks (fst p) (snd p)) (c_chunks c) ++ map oracle_cv (c_cv c))).
+             ++ map (fun p => oracle_chunks (fst p) (snd p)) (c_chunks c)
+             ++ map (oracle_cv kit64) (c_cv c) ++ map (oracle_cv kit32) (c_cv32 c) ++ map oracle_lay (c_lay c))).
 End Case.
 
 Definition run_case (c : case) : verdict := (c_id c, run_case_body c).
